@@ -12,27 +12,29 @@
 (* a run whose sink failed returned a SourceError carrying that failure    *)
 (* (never success, never a panic) and that a run without a fault returned  *)
 (* success with exactly the reference output, which itself must be the     *)
-(* output the specification predicts.  Number and size of the writes are   *)
+(* output the specification predicts (a template that the specification    *)
+(* says fails by itself may return its own error instead).  Number and size of the writes are   *)
 (* logged facts, not expectations.                                         *)
 (***************************************************************************)
 EXTENDS LqRender, Json, TLC, IOUtils
 
 Trace == ndJsonDeserialize(IOEnv.LQ_TRACE)
-VARIABLES l, sink, ref, bad
-vars == <<l, sink, ref, bad>>
+VARIABLES l, sink, ref, bad, rst
+vars == <<l, sink, ref, bad, rst>>
 
-Init == l = 1 /\ sink = Sink0 /\ ref = <<>> /\ bad = ""
+Init == l = 1 /\ sink = Sink0 /\ ref = <<>> /\ bad = "" /\ rst = "ok"
 
 Start(t) ==
   /\ t.ev = "start"
   /\ sink' = Sink0
   /\ ref' = t.ref
   /\ LET r == Render(Cx0, t.prog, EnvOf(t.env)) IN
-       bad' = IF r.status = "ok" /\ r.out # t.ref THEN "the fault-free output differs from the reference semantics" ELSE ""
+       /\ rst' = r.status     \* "ok", "error" (the template itself fails) or "unspec"
+       /\ bad' = IF r.status = "ok" /\ r.out # t.ref THEN "the fault-free output differs from the reference semantics" ELSE ""
 
 Write(t) ==
   /\ t.ev = "write"
-  /\ ref' = ref
+  /\ UNCHANGED <<ref, rst>>
   \* the implementation's call, replayed through the specification's sink
   /\ sink' = SinkWrite([sink EXCEPT !.failAt = IF t.failed THEN sink.calls + 1 ELSE 0, !.keep = t.n], t.b)
   /\ bad' = IF bad # "" THEN bad
@@ -42,14 +44,14 @@ Write(t) ==
 
 End(t) ==
   /\ t.ev = "end"
-  /\ UNCHANGED <<sink, ref>>
+  /\ UNCHANGED <<sink, ref, rst>>
   /\ LET verdict ==
            IF bad # "" THEN bad
            ELSE IF t.outcome = "panic" THEN "panic"
            ELSE IF sink.failed /\ t.outcome = "ok" THEN "success reported although the writer failed"
            ELSE IF sink.failed /\ ~(t.outcome = "error" /\ t.srcerr /\ t.carries) THEN "the error is not a SourceError carrying the writer's failure"
            ELSE IF ~sink.failed /\ t.outcome = "ok" /\ sink.acc # ref THEN "fault-free run with a different output"
-           ELSE IF ~sink.failed /\ t.outcome # "ok" THEN "error without a fault"
+           ELSE IF ~sink.failed /\ t.outcome # "ok" /\ rst = "ok" THEN "error without a fault"
            ELSE ""
      IN  /\ bad' = ""
          /\ IF verdict = "" THEN PrintT(<<"V", t.id, "ok">>)
